@@ -51,16 +51,25 @@ fn check<T: Elem>(c: &VecCall<T>, partner: &Routine<T>, ar: &mut Arenas) -> Verd
                     Expect::ScalarTol { bound, .. } => 2.0 * bound,
                     _ => 0.0,
                 };
-                let tol = if op == Op::Cosine { tol.max(8.0 * (n as f64 + 8.0) * unit_roundoff::<T>()) } else { tol };
+                let tol = if op == Op::Cosine {
+                    tol.max(8.0 * (n as f64 + 8.0) * unit_roundoff::<T>())
+                } else {
+                    tol
+                };
                 if (x.to_f64() - y.to_f64()).abs() <= tol {
                     None
                 } else {
-                    Some(format!("{} vs {} (tolerance {:e})", show(&e1.out), show(&e2.out), tol))
+                    Some(format!(
+                        "{} vs {} (tolerance {:e})",
+                        show(&e1.out),
+                        show(&e2.out),
+                        tol
+                    ))
                 }
             } else {
                 Some(format!("{} vs {}", show(&e1.out), show(&e2.out)))
             }
-        },
+        }
         (Out::Vector(x), Out::Vector(y)) => {
             if x.len() != y.len() {
                 Some("result lengths differ".into())
@@ -87,13 +96,17 @@ fn check<T: Elem>(c: &VecCall<T>, partner: &Routine<T>, ar: &mut Arenas) -> Verd
                         )
                     })
             }
-        },
+        }
         (a, b) => Some(format!("{} vs {}", show(a), show(b))),
     };
     mismatch.map(|d| Fail {
         kind: "xconst_vs_xany",
         class: "differs",
-        expected: format!("{} and {} agree bit for bit (same panic behaviour)", c.r.display(), partner.name),
+        expected: format!(
+            "{} and {} agree bit for bit (same panic behaviour)",
+            c.r.display(),
+            partner.name
+        ),
         actual: d,
         note: "first outcome is the xconst form, second the xany form".into(),
     })
@@ -108,7 +121,8 @@ fn one_target<T: Elem>(ctx: &mut Ctx, t: Target<T>, partner: Routine<T>) {
     let op = t.r.op;
     let int_div = !T::FLOAT && op.is_div();
     let two = kind_uses_b(t.r.kind());
-    let nightly_float_red = cfg!(feature = "nightly") && T::FLOAT && (op.is_sum_like() || op == Op::Cosine || op.is_div());
+    let nightly_float_red =
+        cfg!(feature = "nightly") && T::FLOAT && (op.is_sum_like() || op == Op::Cosine || op.is_div());
     let reps = if dims == 0 { 1 } else { tier.pick(100, 6000) };
     for rep in 0..reps {
         if rep % 32 == 0 && run.ctx.out_of_time() {
@@ -117,7 +131,11 @@ fn one_target<T: Elem>(ctx: &mut Ctx, t: Target<T>, partner: Routine<T>) {
         let class = rep % 4;
         let gen = |rng: &mut Rng, divisor: bool| -> T {
             let v: T = if nightly_float_red {
-                if class == 1 { vals::small_int::<T>(rng, 9) } else { vals::scaled_float(rng, -12, 12) }
+                if class == 1 {
+                    vals::small_int::<T>(rng, 9)
+                } else {
+                    vals::scaled_float(rng, -12, 12)
+                }
             } else {
                 match class {
                     0 | 3 => vals::mixed(rng, &bounds, false),
@@ -128,7 +146,7 @@ fn one_target<T: Elem>(ctx: &mut Ctx, t: Target<T>, partner: Routine<T>) {
                         } else {
                             vals::random_bits::<T>(rng, false)
                         }
-                    },
+                    }
                 }
             };
             if divisor && int_div && v == T::zero() {
@@ -138,7 +156,11 @@ fn one_target<T: Elem>(ctx: &mut Ctx, t: Target<T>, partner: Routine<T>) {
             }
         };
         let a: Vec<T> = (0..dims).map(|_| gen(&mut rng, false)).collect();
-        let mut b: Vec<T> = if two { (0..dims).map(|_| gen(&mut rng, true)).collect() } else { Vec::new() };
+        let mut b: Vec<T> = if two {
+            (0..dims).map(|_| gen(&mut rng, true)).collect()
+        } else {
+            Vec::new()
+        };
         let mut v = gen(&mut rng, true);
         // panic behaviour: integer division by zero somewhere
         if int_div && class == 3 && dims > 0 {
